@@ -97,7 +97,12 @@ def exposed_backtick(s):
     return False
 
 
-D6 = re.compile(r'("(?:[^"\\]|\\.)*"|\\[^ \t\r\n]+)(?=[ \t\r\n\f]|//|/\*)', re.S)
+# the known class D6: the trivia behind a string literal / escaped identifier is emitted twice -- unless it is ONE run of white
+# space that starts with a line break and no comment follows (WhiteSpace::Newline is emitted by no arm of its own)
+D6 = re.compile(r'("(?:[^"\\]|\\.)*"|\\[^ \t\r\n]+)(?=[ \t\f]|//|/\*|[\r\n][ \t\r\n\f]*(?://|/\*|`))', re.S)
+# the wider shape (any trivia behind such a token): there the item of the pp tree has two leaves, so the hypothesis of
+# C06_identity does not apply -- the identity itself is still checked
+D6_WIDE = re.compile(r'("(?:[^"\\]|\\.)*"|\\[^ \t\r\n]+)(?=[ \t\r\n\f]|//|/\*)', re.S)
 
 
 def strip_cmt_str(s):
@@ -202,7 +207,7 @@ def check(ctx):
             tree = ppmodel.tree_of_debug(unhx(pl[0].split()[3]).decode("utf-8"))
             if flat_tiling(tree, len(tb)):
                 nflat += 1
-            else:
+            elif not D6_WIDE.search(t):
                 bad = bad or (pc, "pp tree of a directive-free text is not a tiling by single-leaf items")
         if rr.text != tb:
             bad = bad or (pc, "output differs from the input: %r" % rr.text[:60]); continue
